@@ -53,7 +53,7 @@ REPORT_PER_SIGNATURE = 2
 
 
 def _consts(pos, neg, lo, hi, codecs, maxsegs, regs, free):
-    return {"Vers": {5}, "PosLens": set(pos), "NegLens": set(neg), "MinFrames": lo, "MaxFrames": hi, "AbsHdr": 2,
+    return {"Vers": {5}, "PosLens": set(pos), "NegLens": set(neg), "PushIds": {1}, "MinFrames": lo, "MaxFrames": hi, "AbsHdr": 2,
             "MaxPayload": 4, "CLen": 2, "Codecs": set(codecs), "MaxSegs": maxsegs,
             "CorruptRegs": set(regs) if regs else "{}", "FreeFlags": free}
 
@@ -70,7 +70,7 @@ def _spec_violation(ctx, res, label):
 
 
 def _config_of(state):
-    return {"frames": [{"ver": 5, "neg": bool(f["neg"]), "blen": int(f["blen"])} for f in state["frames"]],
+    return {"frames": [{"ver": 5, "neg": bool(f["neg"]), "blen": int(f["blen"]), "sid": int(f["sid"])} for f in state["frames"]],
             "codec": str(state["codec"]),
             "segs": [{"lo": int(s["lo"]), "hi": int(s["hi"]), "sc": bool(s["sc"]), "z": bool(s["z"])} for s in state["segs"]],
             "corrupt": {"seg": int(state["corrupt"]["seg"]), "reg": str(state["corrupt"]["reg"])}}
@@ -95,9 +95,17 @@ def run(ctx):
     from harness.replay.framing import CodeUnderTestFailure
     try:
         _run(ctx)
+    except tlc.MachineryError:
+        if not ctx.violations:
+            raise
+        ctx.note("aborted_after_violations", "a later stage could not complete on the misbehaving driver")
     except CodeUnderTestFailure as exc:
         ctx.violation("the connection cannot be brought up over the read path under test: %s" % exc,
                       replay={"kind": "handshake", "what": str(exc)}, signature="handshake-over-read-path-fails")
+    except Exception as exc:                     # anything else a misbehaving driver makes a later stage trip over
+        if not ctx.violations:
+            raise
+        ctx.note("aborted_after_violations", "%s: %s" % (type(exc).__name__, exc))
 
 
 def _run(ctx):
@@ -314,10 +322,14 @@ def _run(ctx):
     good = len(traces)
     clean_lay = rs.Layout([rs.sframe(1, False, 8, 1), rs.sframe(2, True, 36, 1)], [True, True], "plain", [False, False])
     victim = rs.record(rs.SegHarness(), clean_lay, [6, 20, clean_lay.rlen - 1, clean_lay.rlen])
+    # the victim is a run of the real connection on clean input; a driver that misbehaves there gives a short
+    # trace (recording stops at defunct): then the victim itself is rejected below and reported as a divergence
+    usable = len(victim) >= 5
     bad1 = copy.deepcopy(victim)
-    bad1[3]["post"]["segbuf"] += 1
     bad2 = copy.deepcopy(victim)
-    del bad2[2]
+    if usable:
+        bad1[3]["post"]["segbuf"] += 1
+        del bad2[2]
     traces += [bad1, bad2, victim]
     tconsts = _consts((0,), (0,), 1, 1, both, 8, (), True)
     tcfg = tlc.write_cfg(os.path.join(ctx.scratch, "trace.cfg"), init="TraceInit", next="TraceNext", constants=tconsts,
@@ -333,9 +345,20 @@ def _run(ctx):
     # the self-test traces come from a run of the real connection; if that run itself misbehaves (defective
     # driver) the corrupted copies are rejected even earlier, which is all the self-test needs
     victim_ok = prog[good + 2] == len(victim) + 1
-    if (victim_ok and prog[good] != 4) or prog[good] > 4 or prog[good + 1] > len(bad2):
+    if not victim_ok:
+        ev = victim[min(max(prog[good + 2], 2), len(victim)) - 1]
+        post = ev.get("post", {})
+        rep.add("recorded execution (two small messages, plain codec, reads ending at real offsets %s) rejected by "
+                "Segments.tla at event %d: post-state %s" % ([e["r"] for e in victim[1:]], prog[good + 2], post),
+                {"kind": "positions", "config": clean_lay.abs_config(), "bit": None,
+                 "real_offsets": [e["r"] for e in victim[1:]]},
+                rs.classify(clean_lay, ev.get("r", 0), post, False, ("trace",)))
+    elif not usable:
+        raise tlc.MachineryError("self-test run of the real connection is too short but was accepted")
+    elif prog[good] != 4 or prog[good + 1] > len(bad2):
         raise tlc.MachineryError("binding self-test failed: corrupted/dropped trace accepted (%s, %s)" % (prog[good], prog[good + 1]))
-    ctx.note("binding_selftest", {"flipped_expectation_noticed": selftest, "corrupted_trace_rejected": 1, "dropped_event_rejected": 1})
+    ctx.note("binding_selftest", {"flipped_expectation_noticed": selftest, "corrupted_trace_rejected": int(victim_ok),
+                                  "dropped_event_rejected": int(victim_ok)})
     accepted = 0
     for i in range(good):
         t, lay = traces[i], lays[i]
